@@ -44,9 +44,9 @@ type keyEnv struct {
 	ctx       *Ctx
 	blobs     *keyBlobs
 	shapeRSA  *rsa.PrivateKey
-	rsas      []*rsaSample
-	ecs       []*ecSample
-	byteS     []bytesSample
+	rsas      []*keyRSASample
+	ecs       []*keyECSample
+	byteS     []keyBytesSample
 	seen      map[string]bool
 	clients   map[string]*kmipclient.Client
 	ep        *cliEndpoint
@@ -56,12 +56,12 @@ type keyEnv struct {
 	wireFails int
 }
 
-func newKeyEnv(ctx *Ctx) *keyEnv {
+func keyNewEnv(ctx *Ctx) *keyEnv {
 	cliQuiet()
 	env := &keyEnv{ctx: ctx, seen: map[string]bool{}, clients: map[string]*kmipclient.Client{}, store: map[string]kmip.Object{}}
-	env.rsas = buildRSASamples(ctx)
-	env.ecs = buildECSamples(ctx)
-	env.byteS = buildBytesSamples(ctx)
+	env.rsas = keyBuildRSASamples(ctx)
+	env.ecs = keyBuildECSamples(ctx)
+	env.byteS = keyBuildBytesSamples(ctx)
 	for _, s := range env.rsas {
 		if s.label == "r512" {
 			env.shapeRSA = s.key
@@ -71,7 +71,7 @@ func newKeyEnv(ctx *Ctx) *keyEnv {
 		ctx.Res.Fail("key: no 512-bit RSA sample")
 		return nil
 	}
-	env.blobs = buildBlobs(ctx, env.shapeRSA)
+	env.blobs = keyBuildBlobs(ctx, env.shapeRSA)
 	// in-process server: Register stores the object, Get returns it
 	exec := kmipserver.NewBatchExecutor()
 	exec.Route(kmip.OperationRegister, kmipserver.HandleFunc(func(_ context.Context, req *payloads.RegisterRequestPayload) (*payloads.RegisterResponsePayload, error) {
@@ -134,11 +134,11 @@ type keyBuilder struct {
 
 const keyUsage = kmip.CryptographicUsageSign | kmip.CryptographicUsageVerify
 
-func pemBlock(ty string, der []byte) []byte {
+func keyPemBlock(ty string, der []byte) []byte {
 	return pem.EncodeToMemory(&pem.Block{Type: ty, Bytes: der})
 }
 
-func rsaBuilders(k *rsa.PrivateKey) []keyBuilder {
+func keyRSABuilders(k *rsa.PrivateKey) []keyBuilder {
 	pkcs1 := x509.MarshalPKCS1PrivateKey(k)
 	pkcs8, _ := x509.MarshalPKCS8PrivateKey(k)
 	pub1 := x509.MarshalPKCS1PublicKey(&k.PublicKey)
@@ -150,24 +150,24 @@ func rsaBuilders(k *rsa.PrivateKey) []keyBuilder {
 		{"PrivateKey", "rsapriv", func(w W) X { return w.PrivateKey(k, keyUsage) }},
 		{"Pkcs1PrivateKey", "rsapriv", func(w W) X { return w.Pkcs1PrivateKey(pkcs1, keyUsage) }},
 		{"Pkcs8PrivateKey", "rsapriv", func(w W) X { return w.Pkcs8PrivateKey(pkcs8, keyUsage) }},
-		{"PemKey:RSA_PRIVATE_KEY", "rsapriv", func(w W) X { return w.PemKey(pemBlock("RSA PRIVATE KEY", pkcs1), keyUsage) }},
-		{"PemKey:PRIVATE_KEY", "rsapriv", func(w W) X { return w.PemKey(pemBlock("PRIVATE KEY", pkcs8), keyUsage) }},
-		{"PemPrivateKey:RSA_PRIVATE_KEY", "rsapriv", func(w W) X { return w.PemPrivateKey(pemBlock("RSA PRIVATE KEY", pkcs1), keyUsage) }},
-		{"PemPrivateKey:PRIVATE_KEY", "rsapriv", func(w W) X { return w.PemPrivateKey(pemBlock("PRIVATE KEY", pkcs8), keyUsage) }},
+		{"PemKey:RSA_PRIVATE_KEY", "rsapriv", func(w W) X { return w.PemKey(keyPemBlock("RSA PRIVATE KEY", pkcs1), keyUsage) }},
+		{"PemKey:PRIVATE_KEY", "rsapriv", func(w W) X { return w.PemKey(keyPemBlock("PRIVATE KEY", pkcs8), keyUsage) }},
+		{"PemPrivateKey:RSA_PRIVATE_KEY", "rsapriv", func(w W) X { return w.PemPrivateKey(keyPemBlock("RSA PRIVATE KEY", pkcs1), keyUsage) }},
+		{"PemPrivateKey:PRIVATE_KEY", "rsapriv", func(w W) X { return w.PemPrivateKey(keyPemBlock("PRIVATE KEY", pkcs8), keyUsage) }},
 		{"RsaPublicKey", "rsapub", func(w W) X { return w.RsaPublicKey(&k.PublicKey, keyUsage) }},
 		{"PublicKey", "rsapub", func(w W) X { return w.PublicKey(&k.PublicKey, keyUsage) }},
 		{"Pkcs1PublicKey", "rsapub", func(w W) X { return w.Pkcs1PublicKey(pub1, keyUsage) }},
 		{"X509PublicKey", "rsapub", func(w W) X { return w.X509PublicKey(pkix, keyUsage) }},
-		{"PemKey:RSA_PUBLIC_KEY", "rsapub", func(w W) X { return w.PemKey(pemBlock("RSA PUBLIC KEY", pub1), keyUsage) }},
-		{"PemKey:PUBLIC_KEY", "rsapub", func(w W) X { return w.PemKey(pemBlock("PUBLIC KEY", pkix), keyUsage) }},
-		{"PemPublicKey:RSA_PUBLIC_KEY", "rsapub", func(w W) X { return w.PemPublicKey(pemBlock("RSA PUBLIC KEY", pub1), keyUsage) }},
-		{"PemPublicKey:PUBLIC_KEY", "rsapub", func(w W) X { return w.PemPublicKey(pemBlock("PUBLIC KEY", pkix), keyUsage) }},
-		{"PemPublicKey:RSA_PRIVATE_KEY", "rsapub", func(w W) X { return w.PemPublicKey(pemBlock("RSA PRIVATE KEY", pkcs1), keyUsage) }},
-		{"PemPublicKey:PRIVATE_KEY", "rsapub", func(w W) X { return w.PemPublicKey(pemBlock("PRIVATE KEY", pkcs8), keyUsage) }},
+		{"PemKey:RSA_PUBLIC_KEY", "rsapub", func(w W) X { return w.PemKey(keyPemBlock("RSA PUBLIC KEY", pub1), keyUsage) }},
+		{"PemKey:PUBLIC_KEY", "rsapub", func(w W) X { return w.PemKey(keyPemBlock("PUBLIC KEY", pkix), keyUsage) }},
+		{"PemPublicKey:RSA_PUBLIC_KEY", "rsapub", func(w W) X { return w.PemPublicKey(keyPemBlock("RSA PUBLIC KEY", pub1), keyUsage) }},
+		{"PemPublicKey:PUBLIC_KEY", "rsapub", func(w W) X { return w.PemPublicKey(keyPemBlock("PUBLIC KEY", pkix), keyUsage) }},
+		{"PemPublicKey:RSA_PRIVATE_KEY", "rsapub", func(w W) X { return w.PemPublicKey(keyPemBlock("RSA PRIVATE KEY", pkcs1), keyUsage) }},
+		{"PemPublicKey:PRIVATE_KEY", "rsapub", func(w W) X { return w.PemPublicKey(keyPemBlock("PRIVATE KEY", pkcs8), keyUsage) }},
 	}
 }
 
-func ecBuilders(k *ecdsa.PrivateKey) []keyBuilder {
+func keyECBuilders(k *ecdsa.PrivateKey) []keyBuilder {
 	sec1, _ := x509.MarshalECPrivateKey(k)
 	pkcs8, _ := x509.MarshalPKCS8PrivateKey(k)
 	pkix, _ := x509.MarshalPKIXPublicKey(&k.PublicKey)
@@ -178,21 +178,21 @@ func ecBuilders(k *ecdsa.PrivateKey) []keyBuilder {
 		{"PrivateKey", "ecpriv", func(w W) X { return w.PrivateKey(k, keyUsage) }},
 		{"Sec1PrivateKey", "ecpriv", func(w W) X { return w.Sec1PrivateKey(sec1, keyUsage) }},
 		{"Pkcs8PrivateKey", "ecpriv", func(w W) X { return w.Pkcs8PrivateKey(pkcs8, keyUsage) }},
-		{"PemKey:EC_PRIVATE_KEY", "ecpriv", func(w W) X { return w.PemKey(pemBlock("EC PRIVATE KEY", sec1), keyUsage) }},
-		{"PemKey:PRIVATE_KEY", "ecpriv", func(w W) X { return w.PemKey(pemBlock("PRIVATE KEY", pkcs8), keyUsage) }},
-		{"PemPrivateKey:EC_PRIVATE_KEY", "ecpriv", func(w W) X { return w.PemPrivateKey(pemBlock("EC PRIVATE KEY", sec1), keyUsage) }},
-		{"PemPrivateKey:PRIVATE_KEY", "ecpriv", func(w W) X { return w.PemPrivateKey(pemBlock("PRIVATE KEY", pkcs8), keyUsage) }},
+		{"PemKey:EC_PRIVATE_KEY", "ecpriv", func(w W) X { return w.PemKey(keyPemBlock("EC PRIVATE KEY", sec1), keyUsage) }},
+		{"PemKey:PRIVATE_KEY", "ecpriv", func(w W) X { return w.PemKey(keyPemBlock("PRIVATE KEY", pkcs8), keyUsage) }},
+		{"PemPrivateKey:EC_PRIVATE_KEY", "ecpriv", func(w W) X { return w.PemPrivateKey(keyPemBlock("EC PRIVATE KEY", sec1), keyUsage) }},
+		{"PemPrivateKey:PRIVATE_KEY", "ecpriv", func(w W) X { return w.PemPrivateKey(keyPemBlock("PRIVATE KEY", pkcs8), keyUsage) }},
 		{"EcdsaPublicKey", "ecpub", func(w W) X { return w.EcdsaPublicKey(&k.PublicKey, keyUsage) }},
 		{"PublicKey", "ecpub", func(w W) X { return w.PublicKey(&k.PublicKey, keyUsage) }},
 		{"X509PublicKey", "ecpub", func(w W) X { return w.X509PublicKey(pkix, keyUsage) }},
-		{"PemKey:PUBLIC_KEY", "ecpub", func(w W) X { return w.PemKey(pemBlock("PUBLIC KEY", pkix), keyUsage) }},
-		{"PemPublicKey:PUBLIC_KEY", "ecpub", func(w W) X { return w.PemPublicKey(pemBlock("PUBLIC KEY", pkix), keyUsage) }},
-		{"PemPublicKey:EC_PRIVATE_KEY", "ecpub", func(w W) X { return w.PemPublicKey(pemBlock("EC PRIVATE KEY", sec1), keyUsage) }},
-		{"PemPublicKey:PRIVATE_KEY", "ecpub", func(w W) X { return w.PemPublicKey(pemBlock("PRIVATE KEY", pkcs8), keyUsage) }},
+		{"PemKey:PUBLIC_KEY", "ecpub", func(w W) X { return w.PemKey(keyPemBlock("PUBLIC KEY", pkix), keyUsage) }},
+		{"PemPublicKey:PUBLIC_KEY", "ecpub", func(w W) X { return w.PemPublicKey(keyPemBlock("PUBLIC KEY", pkix), keyUsage) }},
+		{"PemPublicKey:EC_PRIVATE_KEY", "ecpub", func(w W) X { return w.PemPublicKey(keyPemBlock("EC PRIVATE KEY", sec1), keyUsage) }},
+		{"PemPublicKey:PRIVATE_KEY", "ecpub", func(w W) X { return w.PemPublicKey(keyPemBlock("PRIVATE KEY", pkcs8), keyUsage) }},
 	}
 }
 
-func bytesBuilders(b []byte) []keyBuilder {
+func keyBytesBuilders(b []byte) []keyBuilder {
 	type W = kmipclient.ExecRegisterWantType
 	type X = kmipclient.ExecRegister
 	return []keyBuilder{
@@ -202,20 +202,20 @@ func bytesBuilders(b []byte) []keyBuilder {
 	}
 }
 
-func certBuilders(c *x509.Certificate) []keyBuilder {
+func keyCertBuilders(c *x509.Certificate) []keyBuilder {
 	type W = kmipclient.ExecRegisterWantType
 	type X = kmipclient.ExecRegister
 	return []keyBuilder{
 		{"Certificate", "cert", func(w W) X { return w.Certificate(kmip.CertificateTypeX_509, c.Raw) }},
 		{"X509Certificate", "cert", func(w W) X { return w.X509Certificate(c) }},
-		{"PemCertificate", "cert", func(w W) X { return w.PemCertificate(pemBlock("CERTIFICATE", c.Raw)) }},
+		{"PemCertificate", "cert", func(w W) X { return w.PemCertificate(keyPemBlock("CERTIFICATE", c.Raw)) }},
 	}
 }
 
-// expectedFormat: the KMIP key format a builder must produce for a format mask — written from the
+// keyExpectedFormat: the KMIP key format a builder must produce for a format mask — written from the
 // documentation of KeyFormat ("defaults to …", priority of the specific formats over Transparent),
 // independently of the selector code.
-func expectedFormat(kind string, kf uint8, ver kmip.ProtocolVersion) uint32 {
+func keyExpectedFormat(kind string, kf uint8, ver kmip.ProtocolVersion) uint32 {
 	has := func(b uint8) bool { return kf&b != 0 }
 	const (
 		tr, x509f, pkcs8, pkcs1, sec1, raw = 1, 2, 4, 8, 16, 32
@@ -280,7 +280,7 @@ func expectedFormat(kind string, kf uint8, ver kmip.ProtocolVersion) uint32 {
 	return 0
 }
 
-type rtOrig struct {
+type keyRtOrig struct {
 	label  string
 	rsa    *rsa.PrivateKey
 	ec     *ecdsa.PrivateKey
@@ -294,7 +294,7 @@ func keyViolate(ctx *Ctx, oracle, key, detail, line string) {
 	ctx.Res.Violate(report.Violation{Property: "C14", Oracle: oracle, Key: key, Detail: detail, Line: line})
 }
 
-func fmtName(f uint32) string {
+func keyFmtName(f uint32) string {
 	switch f {
 	case 1:
 		return "raw"
@@ -318,9 +318,9 @@ func fmtName(f uint32) string {
 	return fmt.Sprintf("f%d", f)
 }
 
-// rtCase evaluates one round trip. path = "codec" (messages marshalled and unmarshalled in `enc`) or "wire"
+// keyRtCase evaluates one round trip. path = "codec" (messages marshalled and unmarshalled in `enc`) or "wire"
 // (a real client and the in-process server over a pipe; binary only).
-func rtCase(env *keyEnv, path string, enc keyEnc, ver kmip.ProtocolVersion, b keyBuilder, kf uint8, orig *rtOrig) {
+func keyRtCase(env *keyEnv, path string, enc keyEnc, ver kmip.ProtocolVersion, b keyBuilder, kf uint8, orig *keyRtOrig) {
 	ctx := env.ctx
 	line := fmt.Sprintf("#key.rt %s %s %s %s %d %s", path, enc.name, verStr(ver), b.name, kf, orig.label)
 	ctx.current = line
@@ -357,7 +357,7 @@ func rtCase(env *keyEnv, path string, enc keyEnc, ver kmip.ProtocolVersion, b ke
 		return
 	}
 	if bl.err != nil {
-		if orig.multi && expectedFormat(b.kind, kf, ver) == 10 {
+		if orig.multi && keyExpectedFormat(b.kind, kf, ver) == 10 {
 			// the transparent KMIP format has two primes: refusing a multi-prime key is a correct answer
 			outcome = "refused"
 			return
@@ -371,15 +371,15 @@ func rtCase(env *keyEnv, path string, enc keyEnc, ver kmip.ProtocolVersion, b ke
 		return
 	}
 	// the format the builder chose (independent expectation; the Lean model is asked through key.reg)
-	if kb := kbOf(req.Object); kb != nil {
-		want := expectedFormat(b.kind, kf, ver)
+	if kb := keyKbOf(req.Object); kb != nil {
+		want := keyExpectedFormat(b.kind, kf, ver)
 		if uint32(kb.KeyFormatType) != want {
-			fail("format-selector", "format-"+fmtName(uint32(kb.KeyFormatType))+"-for-"+fmtName(want),
+			fail("format-selector", "format-"+keyFmtName(uint32(kb.KeyFormatType))+"-for-"+keyFmtName(want),
 				fmt.Sprintf("format mask %d at %s: registered as key format %d, expected %d", kf, verStr(ver), kb.KeyFormatType, want))
 		}
 		env.regLine(b.kind, kf, ver, orig, req.Object)
 	}
-	if kb := kbOf(req.Object); kb != nil {
+	if kb := keyKbOf(req.Object); kb != nil {
 		regFmt = uint32(kb.KeyFormatType)
 	}
 	var got *payloads.GetResponsePayload
@@ -408,7 +408,7 @@ func rtCase(env *keyEnv, path string, enc keyEnc, ver kmip.ProtocolVersion, b ke
 		}
 		pl := &payloads.GetResponsePayload{ObjectType: rreq.ObjectType, UniqueIdentifier: "id-1", Object: rreq.Object}
 		var okT bool
-		got, okT = transportPayload(enc, ver, pl)
+		got, okT = keyTransportPayload(enc, ver, pl)
 		if !okT {
 			fail("transport", "response-not-decodable", "the Get response carrying the registered object cannot be encoded and decoded")
 			return
@@ -442,7 +442,7 @@ func rtCase(env *keyEnv, path string, enc keyEnc, ver kmip.ProtocolVersion, b ke
 		}
 		got = r.pl
 	}
-	what := fmtName(regFmt)
+	what := keyFmtName(regFmt)
 	check := func(acc string, f func() (bool, error)) {
 		type res struct {
 			eq  bool
@@ -642,7 +642,7 @@ func rtCase(env *keyEnv, path string, enc keyEnc, ver kmip.ProtocolVersion, b ke
 		mustErr("PublicKey", func() error { _, err := got.PublicKey(); return err })
 	}
 	// the registered algorithm / length of asymmetric keys
-	if kb := kbOf(got.Object); kb != nil {
+	if kb := keyKbOf(got.Object); kb != nil {
 		switch b.kind {
 		case "rsapriv", "rsapub":
 			if kb.CryptographicAlgorithm != kmip.CryptographicAlgorithmRSA || int(kb.CryptographicLength) != orig.rsa.N.BitLen() {
@@ -657,7 +657,7 @@ func rtCase(env *keyEnv, path string, enc keyEnc, ver kmip.ProtocolVersion, b ke
 }
 
 // regLine: correspondence of the register side with the model (`key.reg`).
-func (env *keyEnv) regLine(kind string, kf uint8, ver kmip.ProtocolVersion, orig *rtOrig, obj kmip.Object) {
+func (env *keyEnv) regLine(kind string, kf uint8, ver kmip.ProtocolVersion, orig *keyRtOrig, obj kmip.Object) {
 	var line string
 	switch kind {
 	case "rsapriv", "rsapub":
@@ -678,7 +678,7 @@ func (env *keyEnv) regLine(kind string, kf uint8, ver kmip.ProtocolVersion, orig
 		return
 	}
 	env.seen[line] = true
-	kb := kbOf(obj)
+	kb := keyKbOf(obj)
 	sh := keyBlockFromGo(kb)
 	slot := "none"
 	if m := sh.plain; m != nil {
